@@ -5,7 +5,7 @@ import json
 import os
 
 from engine import rule, AnchorLost, VERIF
-from model import Super, PathSens, fn_of, trace, strace, is_place, site, strace_deep
+from model import Super, PathSens, fn_of, trace, strace, is_place, site, strace_deep, const_value
 import common
 import flagstate
 import ival
@@ -184,8 +184,13 @@ def r02_1(ctx):
             f2 = fn_of(t2) or {}
             if (f2.get("resolved") or f2.get("def")) != d.id:
                 continue
-            tr2 = strace(sup, n2, t2["args"][0])
+            tr2 = strace(sup, n2, t2["args"][0], extra=("std::option::Option::<T>::unwrap_or", "core::slice::<impl [T]>::get"))
             same = any(s[0] == "downcast" and s[1] in _mem_variants(ctx.facts) for s in tr2.steps)
+            if same and len(b2.whole_defs(t2["dest"]["l"])) != 1 and not t2["dest"]["pr"]:
+                # `let enc = match .. { Some(p) => detect(p), None => Encoding::Utf8 }`: what is switched on is not
+                # always the detector's verdict
+                why = "the value the fast path is selected by is not always the detector's verdict (another definition assigns the encoding without consulting it)"
+                continue
             if not same:
                 why = "the detector is applied to a different buffer"
                 continue
@@ -917,6 +922,244 @@ def r07_7(ctx):
     ctx.ob("scratch-encodes", n >= 1, "lib", f"{n} encode_utf8 call(s) into a local scratch array")
 
 
+def _prefix_or_whole(b, src, need):
+    """`x.get(..K).unwrap_or(x)`: the first K bytes of x, or all of x when it is shorter. Returns None when `src` is
+    not an `Option::unwrap_or` of that shape, else (ok, detail, K, operand for x)."""
+    import r_c04
+
+    sf = fn_of(src) or {}
+    if sf.get("def") != "std::option::Option::<T>::unwrap_or" or len(src["args"]) != 2:
+        return None
+    gt = trace(b, src["args"][0])
+    if not (gt.origin and gt.origin[0] == "call" and all(s_[0] == "use" for s_ in gt.steps)):
+        return None
+    g = gt.origin[2]
+    gf = fn_of(g) or {}
+    if not (gf.get("name") == "get" and gf.get("def", "").startswith("core::slice") and len(g["args"]) == 2):
+        return None
+    rt = trace(b, g["args"][1])
+    if not (rt.origin and rt.origin[0] == "agg" and rt.origin[1]["rv"].get("adt", "").endswith("RangeTo") and rt.origin[1]["rv"]["ops"]):
+        return (False, "the detector is given a part of the input that is not a prefix", None, None)
+    k = _byte_count(b, rt.origin[1]["rv"]["ops"][0])
+    if k is None or k < need:
+        return (False, f"the detector is given at most {k} byte(s): fewer than {need}", k, None)
+    rx, rd = r_c04._slice_root(b, g["args"][0]), r_c04._slice_root(b, src["args"][1])
+    tx, td = trace(b, g["args"][0], passthrough_extra=("std::ops::Deref::deref",)), trace(b, src["args"][1], passthrough_extra=("std::ops::Deref::deref",))
+    plain_ = ("use", "ref", "deref", "call")
+
+    def same_origin(o1, o2):
+        if o1 is None or o2 is None or o1[0] != o2[0]:
+            return False
+        if o1[0] == "call":
+            return o1[2] is o2[2]
+        return o1 == o2
+
+    same = (rx is not None and rx == rd) or (same_origin(tx.origin, td.origin) and [s_ for s_ in tx.steps if s_[0] not in plain_] == [s_ for s_ in td.steps if s_[0] not in plain_])
+    if not same:
+        return (False, "the fallback for a short input is not the input itself", k, None)
+    return (True, "", k, g["args"][0])
+
+
+def _fill_buf_head(b, op):
+    """The operand is the slice a `fill_buf()` call returned (its Ok payload, possibly the value a retry loop breaks
+    with): nothing of the stream has been consumed before it. Returns the call's terminator or None."""
+    tr = trace(b, op, passthrough_extra=("std::ops::Try::branch",))
+    if tr.origin and tr.origin[0] == "call" and (fn_of(tr.origin[2]) or {}).get("def") == "std::io::BufRead::fill_buf" and any(s_[0] == "downcast" and s_[1] in ("Ok", "Continue") for s_ in tr.steps):
+        return tr.origin[2]
+    return None
+
+
+def _len_ge_const_edge(b, x_root, k):
+    """Edges (block, label, target) on which `len(x) >= k'` holds for some constant k' >= k, x being the slice local
+    with root x_root."""
+    import r_c04
+
+    out = []
+    for sb in sorted(b.reach()):
+        blk = b.blocks[sb]
+        sw = blk["term"]
+        if sw["k"] != "switch" or not is_place(sw["discr"]) or sw["discr"]["p"]["pr"]:
+            continue
+        dl = sw["discr"]["p"]["l"]
+        cmps = [s_ for s_ in blk["stmts"] if s_["k"] == "assign" and not s_["p"]["pr"] and s_["p"]["l"] == dl and s_["rv"]["k"] == "binop" and s_["rv"]["op"] in ("Ge", "Gt", "Lt", "Le")]
+        if not cmps:
+            continue
+        rv = cmps[-1]["rv"]
+        a_len = r_c04._len_of(b, rv["a"]) == x_root
+        b_len = r_c04._len_of(b, rv["b"]) == x_root
+        ca, cb_ = _byte_count(b, rv["a"]), _byte_count(b, rv["b"])
+        zero = [t_ for v_, t_ in sw["targets"] if v_ == 0]
+        opn = rv["op"]
+        if b_len and ca is not None:
+            # normalise `c OP len` to `len OP' c`
+            opn = {"Ge": "Le", "Gt": "Lt", "Lt": "Gt", "Le": "Ge"}[opn]
+            a_len, cb_ = True, ca
+        elif not (a_len and cb_ is not None):
+            continue
+        if opn == "Ge" and cb_ >= k:
+            out.append((sb, "otherwise", sw["otherwise"]))
+        elif opn == "Gt" and cb_ + 1 >= k:
+            out.append((sb, "otherwise", sw["otherwise"]))
+        elif opn == "Lt" and cb_ >= k and zero:
+            out.append((sb, 0, zero[0]))
+        elif opn == "Le" and cb_ + 1 >= k and zero:
+            out.append((sb, 0, zero[0]))
+    return out
+
+
+def _peeked_head_prefix(b, cbb, src, need):
+    """`&peeked[..K]` (K >= need a constant) of the slice `fill_buf()` returned, taken where `peeked.len() >= K` is
+    established: the detector sees the stream's first K bytes in place. (ok, detail) or None when `src` is not such
+    an indexing call."""
+    import r_c04
+
+    sf = fn_of(src) or {}
+    if not (sf.get("trait") in ("std::ops::Index",) and len(src["args"]) == 2):
+        return None
+    if _fill_buf_head(b, src["args"][0]) is None:
+        return None
+    rt = trace(b, src["args"][1])
+    if not (rt.origin and rt.origin[0] == "agg" and rt.origin[1]["rv"].get("adt", "").endswith("RangeTo") and rt.origin[1]["rv"]["ops"]):
+        return (False, "the detector is given a part of the reader's buffer that is not a constant-length prefix")
+    k = _byte_count(b, rt.origin[1]["rv"]["ops"][0])
+    root = r_c04._slice_root(b, src["args"][0])
+    if k is None or k < need:
+        return (False, f"the detector is given the first {k} byte(s) of the reader's buffer: fewer than {need}")
+    ok = any(b.edge_dominates(e[0], e[1], e[2], cbb) for e in _len_ge_const_edge(b, root, k))
+    return (ok, f"first {k} bytes of the reader's own buffer, taken where the buffer is known to hold at least {k}" if ok else f"the reader's buffer is sliced to {k} bytes without a dominating test that it holds that many")
+
+
+def _read_loop_complete(b, arr, ln, fill_bb):
+    """Array local `arr` is filled by `reader.read(&mut arr[ln..])` in a loop that is left, on the way to block
+    fill_bb, only when `ln` reached the array's length or a read returned Ok(0); `ln` grows by what each read
+    returned and by nothing else."""
+    import r_c04
+
+    reads = []
+    for cb, ct in b.calls():
+        f = fn_of(ct) or {}
+        if not (f.get("trait") == "std::io::Read" and f.get("name") == "read" and len(ct["args"]) == 2):
+            continue
+        at = trace(b, ct["args"][1])
+        if not (at.origin and at.origin[0] == "call" and (fn_of(at.origin[2]) or {}).get("trait") == "std::ops::IndexMut"):
+            continue
+        ix = at.origin[2]
+        if r_c04._slice_root(b, ix["args"][0]) != arr:
+            continue
+        rt = trace(b, ix["args"][1])
+        if not (rt.origin and rt.origin[0] == "agg" and rt.origin[1]["rv"].get("adt", "").endswith("RangeFrom")):
+            continue
+        st_ = r_c04._stable_root(b, rt.origin[1]["rv"]["ops"][0]) if False else None
+        o0 = rt.origin[1]["rv"]["ops"][0]
+        t0 = trace(b, o0)
+        if not ((t0.origin and t0.origin[0] == "multi" and t0.origin[1] == ln) or (is_place(o0) and o0["p"]["l"] == ln)):
+            continue
+        reads.append((cb, ct))
+    if len(reads) != 1:
+        return False
+    rb, rt_ = reads[0]
+    loop = {x for x in b.reachable_from(rb) if rb in b.reachable_from(x)} | {rb}
+    if not b.on_cycle(rb):
+        return False
+    for u in sorted(loop):
+        for v in b.succ(u):
+            if v in loop or b.blocks[v].get("cleanup"):
+                continue
+            if fill_bb not in b.reachable_from(v) and v != fill_bb:
+                continue  # error return
+            sw = b.blocks[u]["term"]
+            if sw["k"] != "switch":
+                return False
+            zero = [t_ for v_, t_ in sw["targets"] if v_ == 0]
+            if not zero or zero[0] != v:
+                return False
+            d = sw["discr"]
+            if is_place(d) and d["p"]["pr"]:
+                # switch on the read's Ok payload: the 0 arm
+                dt = trace(b, d)
+                if dt.origin and dt.origin[0] == "call" and dt.origin[2] is rt_ and any(s_[0] == "downcast" and s_[1] in ("Ok", "Continue") for s_ in dt.steps):
+                    continue
+                return False
+            # `ln < len(arr)` false
+            cm = [s_ for s_ in b.blocks[u]["stmts"] if s_["k"] == "assign" and not s_["p"]["pr"] and is_place(d) and s_["p"]["l"] == d["p"]["l"] and s_["rv"]["k"] == "binop"]
+            if not cm or cm[-1]["rv"]["op"] != "Lt":
+                return False
+            la = trace(b, cm[-1]["rv"]["a"])
+            a_is_ln = (la.origin and la.origin[0] == "multi" and la.origin[1] == ln) or (is_place(cm[-1]["rv"]["a"]) and cm[-1]["rv"]["a"]["p"]["l"] == ln)
+            cap = _byte_count(b, cm[-1]["rv"]["b"])
+            m = re.match(r"^\[u8; (\d+)\]$", b.local_ty(arr))
+            if not (a_is_ln and m and cap == int(m.group(1))):
+                return False
+    # `ln` only grows by the reads' results
+    for db, _, kind, payload in b.whole_defs(ln):
+        if db not in loop:
+            if kind == "assign" and payload["rv"]["k"] == "use" and const_value(payload["rv"]["op"]) == 0:
+                continue
+            return False
+        if kind != "assign":
+            return False
+        tr = trace(b, payload["rv"]["op"]) if payload["rv"]["k"] == "use" else None
+        if not (tr and tr.origin and tr.origin[0] == "rvalue" and tr.origin[1]["rv"]["k"] == "binop" and tr.origin[1]["rv"]["op"].startswith("Add")):
+            return False
+        x, y = tr.origin[1]["rv"]["a"], tr.origin[1]["rv"]["b"]
+        xt = trace(b, x)
+        if not ((xt.origin and xt.origin[0] == "multi" and xt.origin[1] == ln) or (is_place(x) and x["p"]["l"] == ln)):
+            return False
+        yt = trace(b, y, passthrough_extra=("std::ops::Try::branch",))
+        if not (yt.origin and yt.origin[0] == "call" and yt.origin[2] is rt_ and any(s_[0] == "downcast" and s_[1] in ("Ok", "Continue") for s_ in yt.steps)):
+            return False
+    return True
+
+
+def _loop_fill(b, bl, bb, need):
+    """(ok, detail) when every path to block bb either hands local buffer `bl` the bytes a complete read loop put
+    into a `[u8; K]` array (K >= need), or passes the evidence that the stream is empty (`fill_buf()` returned an
+    empty slice before anything was consumed); None when no such fill is found."""
+    import r_c04
+
+    fills = []
+    for cb, ct in b.calls():
+        f = fn_of(ct) or {}
+        if not (f.get("local") and len(ct["args"]) == 2 and is_place(ct["args"][0])):
+            continue
+        rt = trace(b, ct["args"][0])
+        rl = rt.origin[2]["dest"]["l"] if rt.origin and rt.origin[0] == "call" else (rt.origin[1] if rt.origin and rt.origin[0] == "multi" else None)
+        if rl != bl or not any(s_[0] == "ref" for s_ in rt.steps):
+            continue
+        at = trace(b, ct["args"][1])
+        if not (at.origin and at.origin[0] == "call" and (fn_of(at.origin[2]) or {}).get("trait") == "std::ops::Index"):
+            continue
+        ix = at.origin[2]
+        arr = r_c04._slice_root(b, ix["args"][0])
+        m = re.match(r"^\[u8; (\d+)\]$", b.local_ty(arr)) if arr is not None else None
+        xt = trace(b, ix["args"][1])
+        if not (m and int(m.group(1)) >= need and xt.origin and xt.origin[0] == "agg" and xt.origin[1]["rv"].get("adt", "").endswith("RangeTo")):
+            continue
+        o0 = xt.origin[1]["rv"]["ops"][0]
+        t0 = trace(b, o0)
+        ln = t0.origin[1] if t0.origin and t0.origin[0] == "multi" else (o0["p"]["l"] if is_place(o0) and not o0["p"]["pr"] else None)
+        if ln is None:
+            continue
+        fills.append((cb, _read_loop_complete(b, arr, ln, cb), int(m.group(1))))
+    if not fills:
+        return None
+    good = [cb for cb, ok_, _ in fills if ok_]
+    # evidence of an empty stream: the true edge of `is_empty()` on the slice fill_buf returned
+    eof = []
+    for sb, st in b.calls():
+        f = fn_of(st) or {}
+        if f.get("name") == "is_empty" and f.get("def", "").startswith("core::slice") and st["args"] and _fill_buf_head(b, st["args"][0]) is not None:
+            sw = b.blocks[st["target"]]["term"]
+            if sw["k"] == "switch" and is_place(sw["discr"]) and sw["discr"]["p"]["l"] == st["dest"]["l"]:
+                tgt = sw["otherwise"]
+                if len(b.pred(tgt)) == 1:
+                    eof.append(tgt)
+    covered = b.must_pass(0, [bb], good + eof)
+    if not all(ok_ for _, ok_, _ in fills):
+        return (False, "the detection buffer is filled from a read that may stop short of the buffer's length although more of the stream follows (a single read is not a fill)")
+    return (covered, f"buffer filled by a read loop that ends only when {fills[0][2]} bytes are in or the source returned 0" + (" (or left empty where fill_buf showed the stream to be empty)" if eof else "") if covered else "a path reaches the detector with a buffer that was neither filled completely nor shown to be all there is")
+
+
 @rule("R07.6", 2, "the encoding detector always sees the first 4 bytes (or the whole input if shorter): whole slice, prefix(N>=4), or a buffer filled by copying from take(N>=4)", ["C07", "C02", "C09"])
 def r07_6(ctx):
     lib = ctx.lib
@@ -943,6 +1186,14 @@ def r07_6(ctx):
             src = tr.origin[2]
             sf = fn_of(src) or {}
             cb = lib.by_id.get(sf.get("resolved") or sf.get("def"))
+            head = _peeked_head_prefix(b, tr.origin[1], src, need)
+            if head is not None:
+                return [(head[0], head[1], b, bb)]
+            pw = _prefix_or_whole(b, src, need)
+            if pw is not None:
+                if not pw[0]:
+                    return [(False, pw[1], b, bb)]
+                return [(ok_ and True, f"first {pw[2]} bytes of, or all of: " + det_, sb_, sbb_) for ok_, det_, sb_, sbb_ in classify(b, bb, pw[3], depth + 1)]
             if cb and cb.raw.get("ret_ty", "").startswith("std::result::Result<&[u8], std::io::Error>") and len(src["args"]) == 2:
                 c = trace(b, src["args"][1])
                 v = c.origin[1].get("v") if c.origin and c.origin[0] == "const" else None
@@ -966,6 +1217,8 @@ def r07_6(ctx):
                             rl = rt.origin[2]["dest"]["l"] if rt.origin and rt.origin[0] == "call" else None
                             if rl is not None and all(s_[0] == "use" for s_ in rt.steps):
                                 got = copy_fill(hb, rl, dbb) or got
+                if got is None and bl is not None:
+                    got = _loop_fill(b, bl, bb, need)
                 if got is not None:
                     ok, det = got
             else:
